@@ -235,7 +235,7 @@ PROPS["C13"] = {
 }
 PROPS["C02"] = {
     "lean_modules": ["AvroModel.Props.C02"],
-    "required_theorems": ["record_valid", "independent_reader_recovers", "reference_decoder_inverts", "null_branch_iff", "omits_cases", "null_clause_full_false", "null_clause_partial", "container_frames"],
+    "required_theorems": ["record_valid", "independent_reader_recovers", "reference_decoder_inverts", "null_branch_iff", "omits_cases", "null_clause_full_false", "null_clause_partial", "container_frames", "spec_reader_reads_frames", "container_valid"],
     "harness": [("WR2", "C02")],
     "level_text": "Proof: every record the encoder buffers is the specification's encoding of the datum its value denotes under the schema "
                   "(record_valid), the null branch is written exactly when Omit holds and Omit is characterised in value terms (null_branch_iff, "
